@@ -33,6 +33,17 @@ def generate(rng, tier, r):
     from sim import gensim as gg
 
     thorough = tier == "thorough"
+    if r % 50 == 7:
+        # size knob at the other end: a product with >= 2**16 rows (implementations switch code paths on size)
+        bt = rng.choice([128, 192, 256])
+        bo = rng.choice([b for b in (256, 384, 512) if b != bt])
+        dim = rng.choice([1, 2])
+        spec = {"kind": "nonstatio", "key": rng.randrange(2**31), "n": bo + rng.randint(0, 3), "bo": bo, "dim": dim,
+                "method": "uniform", "min_pts": [-1.0, 0.0][:dim], "max_pts": [1.0, 2.0][:dim],
+                "nb": (2 if dim == 1 else 4 * 3) if rng.random() < 0.5 else None, "bb": None,
+                "nt": bt + rng.randint(0, 2), "bt": bt, "tmin": 0.0, "tmax": 1.0, "cartesian": True}
+        spec["bb"] = (1 if dim == 1 else 3) if spec["nb"] else None
+        return {"float": float_mode(r), "tasks": [spec], "ops": [{"t": 0, "mode": rng.choice(["eager", "jit"])} for _ in range(2)], "large": True}
     return gg.gen_program(rng, KINDS, max_tasks=2, max_ops=100 if thorough else 24,
                           nmax=40 if thorough else 16, float_mode=float_mode(r))
 
@@ -73,6 +84,8 @@ def execute(program, ctx):
             fail("shape", t, "factors", {"T": list(T.shape), "X": list(X.shape)}, step)
         # reference product, explicit loops
         if s["cartesian"]:
+            if bt * bx >= 2**14:
+                ctx.count("probe.large_product")
             exp = np.array([[T[i]] + list(X[j]) for i in range(bt) for j in range(bx)], dtype=tx.dtype).reshape(rows, 1 + dim)
         else:
             exp = np.array([[T[i]] + list(X[i]) for i in range(bx)], dtype=tx.dtype).reshape(rows, 1 + dim)
